@@ -38,7 +38,8 @@ CHECKS = {
             'last reference unregisters, a dead object is never called again along any continuation, no '
             'callback has receiver None.  Correspondence drops references between operations and inside '
             'callbacks under permuted listener orders; the harness checks with weakref + gc.collect() that '
-            'nothing keeps a dropped handler alive.',
+            'nothing keeps a dropped handler alive; a runtime probe checks that a handler which cannot be '
+            'referenced weakly is refused or, if accepted, still not kept alive (objects outside the model).',
             'Partial: that CPython frees an object when its last reference goes (refcounting) is runtime '
             'behaviour, assumed by the theorems and observed on the implementation.  Trusted: Lean kernel, '
             'reading of the statement, correspondence harness.',
@@ -186,7 +187,9 @@ CHECKS = {
             'Theorems in lean/DesperProofs/Props/C19.lean.  Correspondence (a) twin worlds: the same history through '
             'Controller shorthands / ComponentReference / ProcessorReference and through plain World calls must give '
             'identical results, callbacks and full snapshots after every operation; (b) Prototype subclass families '
-            'over all source combinations, custom/empty prefixes, overrides, colliding type names, double iteration.',
+            'over all source combinations, custom/empty prefixes, overrides, colliding type names, double iteration; '
+            '(c) runtime probe outside the one-world model: an OnUpdateProcessor moved to another world relays that '
+            'world\'s frames to that world\'s listeners only.',
             'Trusted: Lean kernel; reading of the statement; correspondence harness.  The shorthand theorems hold by unfolding in the model, so for that clause the assurance is the twin-world differential run on the real code.', '§5 C19'),
 }
 
